@@ -72,6 +72,11 @@ type Options struct {
 	Tweak func(p *config.Configuration)
 	// CoinbaseMaturity (default 1 so that funding outputs mature quickly).
 	CoinbaseMaturity uint32
+	// PoolGlue makes the node's TxPool react to chain notifications exactly as
+	// elanet/netsync/manager.go handleBlockchainEvents does (the sync manager
+	// itself needs a P2P server and subscribes for the life of the process, so it
+	// cannot be instantiated once per behaviour).
+	PoolGlue bool
 }
 
 type Node struct {
@@ -86,6 +91,7 @@ type Node struct {
 	Pow      *pow.Service
 	Miner    *account.Account // receives coinbases of factory blocks
 	nonce    uint64
+	glue     bool
 	Events   []Event // connect / disconnect notifications since last Drain
 	sub      bool
 }
@@ -117,7 +123,7 @@ func New(opt Options) (*Node, error) {
 	if opt.Tweak != nil {
 		opt.Tweak(params)
 	}
-	n := &Node{Dir: dir, Params: params}
+	n := &Node{Dir: dir, Params: params, glue: opt.PoolGlue}
 	n.Ckp = checkpoint.NewManager(params)
 	n.Ckp.SetDataPath(filepath.Join(dir, "checkpoints"))
 	ledger := &blockchain.Ledger{}
@@ -188,9 +194,30 @@ func New(opt Options) (*Node, error) {
 			}
 			switch e.Type {
 			case events.ETBlockConnected:
-				c.Events = append(c.Events, Event{"connect", e.Data.(*types.Block).Hash()})
+				blk := e.Data.(*types.Block)
+				c.Events = append(c.Events, Event{"connect", blk.Hash()})
+				if c.glue {
+					c.Pool.CleanSubmittedTransactions(blk)
+					c.Chain.UTXOCache.CleanTxCache()
+					c.Pool.ResendOutdatedTransactions(blk)
+				}
 			case events.ETBlockDisconnected:
-				c.Events = append(c.Events, Event{"disconnect", e.Data.(*types.Block).Hash()})
+				blk := e.Data.(*types.Block)
+				c.Events = append(c.Events, Event{"disconnect", blk.Hash()})
+				if c.glue {
+					for _, tx := range blk.Transactions[1:] {
+						if err := c.Pool.MaybeAcceptTransaction(tx); err != nil {
+							c.Pool.RemoveTransaction(tx)
+						}
+					}
+				}
+			case events.ETBlockProcessed:
+				blk := e.Data.(*types.Block)
+				c.Events = append(c.Events, Event{"processed", blk.Hash()})
+				if c.glue {
+					c.Pool.CheckAndCleanAllTransactions()
+					c.Pool.BroadcastSmallCrossChainTransactions(blk.Height)
+				}
 			}
 		})
 	}
